@@ -1,6 +1,6 @@
 (* C05 Blocks nest and end correctly; Block tag names the active block. Statements only. *)
 From Coq Require Import ZArith List Bool Arith.
-From OP Require Import lib.Obs model.Interp model.InterpRun model.C05 proofs.Interp_inv proofs.C05_proofs proofs.C05_pending.
+From OP Require Import lib.Obs model.Interp model.InterpRun model.C05 proofs.Interp_inv proofs.C05_proofs proofs.C05_pending proofs.Interp_stack proofs.C02_order proofs.C05_order.
 Import ListNotations.
 Open Scope Z_scope.
 
@@ -45,7 +45,21 @@ Theorem C05_no_pending_watch_or_alarm_in_an_ended_block : forall p ts, tree_ok_b
 Proof. intros p ts H. apply no_pending_always. now apply tree_ok_tree. Qed.
 Print Assumptions C05_no_pending_watch_or_alarm_in_an_ended_block.
 
-(* PARTIAL. Proved: the chain clause and the pending-interrupt clause. Checked by the Coq monitor on the real interpreter
+(* Lock clause. In EVERY state after every tick of EVERY run, for every well-formed method tree (wf_b, evaluated by the
+   monitor on every generated method), outside Alarm and Macro bodies a started line whose parent is a Block lies in a block
+   that has taken the lock: it holds it, or has ended / completed since. No line of a block body runs before the block
+   acquired the block lock; with the chain theorem, the blocks whose bodies are running are nested in each other. Stack
+   invariant (proofs/Interp_stack.v): the children loop of a Block is pushed only by a frame that saw the lock, and outside
+   Alarm / Macro bodies "lock or ended or completed" never falls (the lock is given back only by a block that has ended). *)
+Theorem C05_a_block_body_runs_only_with_the_lock : forall p ts, wf_b p = true ->
+  Forall (fun s => forall c q, n_parent (nd p c) = Some q -> n_kind (nd p q) = KBlock ->
+                               C02_order.plain p c = true -> C02_order.plain p q = true -> started (st s c) = true ->
+                               lock_acquired (st s q) = true \/ block_ended (st s q) = true \/ completed (st s q) = true)
+         (states p [FVisit 0] (InterpRun.init p) 0 ts).
+Proof. exact block_body_runs_only_with_the_lock. Qed.
+Print Assumptions C05_a_block_body_runs_only_with_the_lock.
+
+(* PARTIAL. Proved: the chain clause, the pending-interrupt clause and the lock clause. Checked by the Coq monitor on the real interpreter
    (and, through the correspondence, on the model): the Block tag names the innermost active block and nothing when none
    is active; an instruction after a block starts only after the block has ended.
    Not modelled: macros (a Block inside a macro called from inside another block can never take the lock -- its static
